@@ -4,6 +4,7 @@ import (
 	"encoding/json"
 	"fmt"
 	"sort"
+	"strings"
 
 	"github.com/goose-lang/goose/machine/filesys"
 
@@ -46,6 +47,8 @@ type ACPlan struct {
 	Creators []Creator `json:"creators,omitempty"`
 	Reads    int       `json:"reads,omitempty"`
 	OldFiles []Creator `json:"old_files,omitempty"`
+	// seq batch: a sequential history centred on AtomicCreate
+	Seq *FsPlan `json:"seq,omitempty"`
 }
 
 type c13 struct{}
@@ -77,6 +80,14 @@ func (c13) Gen(rng *simrt.Rand, tier string, run int) interface{} {
 				p.TmpLen = p.DataLen + rng.Pick(1, 26, 4096)
 			}
 		}
+	}
+	if run%8 == 7 {
+		// (4) completed calls stay exact under later unrelated operations
+		p.Batch = "seq"
+		q := FsPlan{Batch: "seq"}
+		q.Dirs, q.Ops = genFsSeq(rng, 14, true)
+		p.Seq = &q
+		return p
 	}
 	switch run % 4 {
 	case 0, 1:
@@ -151,6 +162,18 @@ func (c13) Shrink(pj json.RawMessage) []json.RawMessage {
 	add := func(q ACPlan) {
 		b, _ := json.Marshal(q)
 		out = append(out, b)
+	}
+	if p.Batch == "seq" {
+		for i := range p.Seq.Ops {
+			q := p
+			sq := *p.Seq
+			sq.Ops = append(append([]FsOp(nil), p.Seq.Ops[:i]...), p.Seq.Ops[i+1:]...)
+			if validSeq(sq.Dirs, sq.Ops) {
+				q.Seq = &sq
+				add(q)
+			}
+		}
+		return out
 	}
 	if p.Batch == "conc" {
 		for i := range p.Creators {
@@ -255,7 +278,7 @@ func readName(fs filesys.Filesys, d, n string) (data []byte, absent bool, msg st
 func (c13) Expand(pj json.RawMessage) []json.RawMessage {
 	var p ACPlan
 	json.Unmarshal(pj, &p)
-	if p.Batch == "conc" {
+	if p.Batch == "conc" || p.Batch == "seq" {
 		return nil
 	}
 	pilot := p
@@ -514,6 +537,32 @@ func (c13) Exec(pj json.RawMessage, tape *simrt.Tape, keepLog bool) harness.RunO
 	}
 	if p.Batch == "conc" {
 		return execACConc(&p, pj, tape, keepLog)
+	}
+	if p.Batch == "seq" {
+		out := harness.RunOut{Fingerprint: planHash(pj, ""), Probes: map[string]int{"batch_seq": 1}, Faults: map[string]int{}}
+		for _, sys := range []string{"mem", "dir"} {
+			r := runFsSeq(p.Seq, sys, keepLog)
+			out.Events += r.events
+			if keepLog {
+				out.Log = append(out.Log, "== system "+sys)
+				out.Log = append(out.Log, r.log...)
+			}
+			if r.violation != nil {
+				v := *r.violation
+				v.Oracle = strings.Replace(v.Oracle, "fs.seq.", "ac.seq.", 1)
+				v.Key = strings.Replace(v.Key, "fs.seq.", "ac.seq.", 1)
+				v.Msg = "a history of completed AtomicCreate calls and later unrelated operations: " + v.Msg
+				out.Violation = &v
+				return out
+			}
+		}
+		for _, o := range p.Seq.Ops {
+			if o.K == "ac" {
+				out.NonTrivial = true
+			}
+		}
+		out.Sample = map[string]interface{}{"batch": "seq", "ops": opStrings(p.Seq.Ops)}
+		return out
 	}
 	r := execAC(&p, keepLog)
 	out := harness.RunOut{Fingerprint: planHash(pj, ""), Events: r.events, Probes: r.probes, Faults: r.faults, Log: r.log, Violation: r.violation}
